@@ -67,6 +67,11 @@ def run_case(case, obs):
     else:
         spec["samplers"] = [{"method": "verif/design", "options": {"samples": samples.tolist()}}]
         eff = samples
+    retain = bool(rng.random() < 0.4)
+    if retain:
+        for smp in spec["samplers"]:
+            smp["options"]["retain"] = True
+        obs.count("with_sampler_that_keeps_its_sample_array")
     case["spec"] = spec
     # a variable scaler must not change what happens in the user's coordinates (magnitudes and bounds are user-domain settings)
     T = None
@@ -96,56 +101,63 @@ def run_case(case, obs):
         cfg = ens.make_config(spec, T)
     ev = ens.RecordingEvaluator(spec)
     ee = EnsembleEvaluator(cfg, T, ev, ens.plugin_manager())
-    xin = np.asarray(cfg.variables.initial_values, dtype=float)
-    path = "combined" if rng.random() < 0.5 else "split"
-    if path == "combined":
-        _, gres = ee.calculate(xin, compute_functions=True, compute_gradients=True)
-        rows = ev.calls[0].variables[R:].reshape(R, P, V)
-    else:
-        ee.calculate(xin, compute_functions=True, compute_gradients=False)
-        (gres,) = ee.calculate(xin, compute_functions=False, compute_gradients=True)
-        rows = ev.calls[1].variables.reshape(R, P, V)
-    got = np.asarray(gres.evaluations.perturbed_variables)
-    if T is not None:
-        got = T.variables.from_optimizer(got)      # judge in the user's coordinates
     m = np.where(ptypes == 2, (ub - lb) * mags, mags)
-    raw = x + m * eff
     nontriv = False
-    for v in range(V):
-        t = int(btypes[v])
-        for r in range(R):
-            for p in range(P):
-                g, w = got[r, p, v], raw[r, p, v]
-                obs.count("entries_checked")
-                if ptypes[v] == 2:
-                    obs.count("relative_magnitude_entries")
-                inside = lb[v] <= w <= ub[v]
-                tol = (1e-12 if T is None else 1e-9) * (1 + abs(w))
-                if inside:
-                    ok = abs(g - w) <= tol
-                    kind = "inside_value_altered"
-                else:
-                    nontriv = True
-                    obs.count("outside." + NAMES[t])
-                    if t == 1:
-                        ok, kind = abs(g - w) <= tol, "NONE_altered"
-                    elif t == 2:
-                        ok, kind = abs(g - min(max(w, lb[v]), ub[v])) <= (0.0 if T is None else tol), "TRUNCATE_not_clipped"
+    x_first = x
+    # one evaluator computes 1-3 gradients at different points: every one of them follows the rule (nothing that an
+    # earlier evaluation did to the arrays of the samplers may show)
+    for k_eval in range(int(rng.integers(1, 4))):
+        if k_eval:
+            x = np.array([rng.uniform(max(l, -3), min(u, 3)) for l, u in zip(lb, ub)])
+            obs.count("later_gradient_of_same_evaluator")
+        xin = np.asarray(cfg.variables.initial_values, dtype=float) if k_eval == 0 else (T.variables.to_optimizer(x) if T is not None else x)
+        path = "combined" if rng.random() < 0.5 else "split"
+        if path == "combined":
+            _, gres = ee.calculate(xin, compute_functions=True, compute_gradients=True)
+            rows = ev.calls[-1].variables[R:].reshape(R, P, V)
+        else:
+            ee.calculate(xin, compute_functions=True, compute_gradients=False)
+            (gres,) = ee.calculate(xin, compute_functions=False, compute_gradients=True)
+            rows = ev.calls[-1].variables.reshape(R, P, V)
+        got = np.asarray(gres.evaluations.perturbed_variables)
+        if T is not None:
+            got = T.variables.from_optimizer(got)      # judge in the user's coordinates
+        raw = x + m * eff
+        for v in range(V):
+            t = int(btypes[v])
+            for r in range(R):
+                for p in range(P):
+                    g, w = got[r, p, v], raw[r, p, v]
+                    obs.count("entries_checked")
+                    if ptypes[v] == 2:
+                        obs.count("relative_magnitude_entries")
+                    inside = lb[v] <= w <= ub[v]
+                    tol = (1e-12 if T is None else 1e-9) * (1 + abs(w))
+                    if inside:
+                        ok = abs(g - w) <= tol
+                        kind = "inside_value_altered"
                     else:
-                        b = lb[v] if w < lb[v] else ub[v]
-                        refl = 2 * b - w
-                        if lb[v] <= refl <= ub[v]:
-                            obs.count("mirror_single_reflection")
-                            ok, kind = abs(g - refl) <= tol, "MIRROR_not_reflected"
+                        nontriv = True
+                        obs.count("outside." + NAMES[t])
+                        if t == 1:
+                            ok, kind = abs(g - w) <= tol, "NONE_altered"
+                        elif t == 2:
+                            ok, kind = abs(g - min(max(w, lb[v]), ub[v])) <= (0.0 if T is None else tol), "TRUNCATE_not_clipped"
                         else:
-                            ok, kind = lb[v] - (0 if T is None else tol) <= g <= ub[v] + (0 if T is None else tol), "MIRROR_outside_bounds"
-                if not ok:
-                    obs.violation(kind, variable=v, btype=NAMES[t], got=float(g), raw=float(w), lb=float(lb[v]), ub=float(ub[v]),
-                                  x=float(x[v]), magnitude=float(m[v]), sample=float(eff[r, p, v]))
-                    return
-    obs.count("evaluator_rows_checked", R * P)
-    if not (np.array_equal(rows, got) if T is None else np.allclose(rows, got, rtol=1e-12, atol=1e-14)):
-        obs.violation("evaluator_rows_differ_from_reported", rows=rows, reported=got)
+                            b = lb[v] if w < lb[v] else ub[v]
+                            refl = 2 * b - w
+                            if lb[v] <= refl <= ub[v]:
+                                obs.count("mirror_single_reflection")
+                                ok, kind = abs(g - refl) <= tol, "MIRROR_not_reflected"
+                            else:
+                                ok, kind = lb[v] - (0 if T is None else tol) <= g <= ub[v] + (0 if T is None else tol), "MIRROR_outside_bounds"
+                    if not ok:
+                        obs.violation(kind, variable=v, btype=NAMES[t], got=float(g), raw=float(w), lb=float(lb[v]), ub=float(ub[v]),
+                                      x=float(x[v]), magnitude=float(m[v]), sample=float(eff[r, p, v]))
+                        return
+        obs.count("evaluator_rows_checked", R * P)
+        if not (np.array_equal(rows, got) if T is None else np.allclose(rows, got, rtol=1e-12, atol=1e-14)):
+            obs.violation("evaluator_rows_differ_from_reported", rows=rows, reported=got)
     if nontriv:
         obs.nontrivial(case["i"])
     obs.feature("path." + path)
